@@ -430,6 +430,29 @@ CHECKS['C16'] = {
     'level_note': 'Trusted: exact small-integer arithmetic. Not covered: orders above 3, words longer than the depth bound, non-dyadic coefficients (except the settling and extreme-value families).',
 }
 
+
+def c14_jobs(tier):
+    src = ['src/trajtrap.c', 'src/trajbell.c', 'src/math.c', 'src/a.c']
+    jobs = grid_jobs('traj-f64', 'harness/traj.cpp', src, tier, 16)
+    # float: always the quick lattice. The thorough lattice adds extreme limits (jm 100, travel 0.01) for which the float build of the
+    # iterative no-cruise solver (absolute-epsilon bisection) is not accurate enough to state a tolerance; see DESIGN.md section 7
+    jobs += grid_jobs('traj-f32', 'harness/traj.cpp', src, 'quick', 8, defs=['-DA_SIZE_REAL=4'])
+    return jobs
+
+
+CHECKS['C14'] = {
+    'title': 'velocity-profile trajectories respect kinematic limits and reach their end state', 'level': 'exploration', 'engine': 'grid', 'jobs': c14_jobs,
+    'rule': ('bounded-exhaustive enumeration of generator requests; every plan the real generator reports with a positive duration is interrogated on a time lattice. Trapezoid: vm in {1/2,1,2,3} x |ac|,|de| in {1/2,1,2,3} with signs matching the direction of travel x 11 distances 1/8..9 x both directions x 2 start positions x 13^2 boundary velocities (0, +-1/4, +-1/2, +-1, +-2, +-vm, +-1.25 vm: inside, at and beyond the limit -> clamping). '
+             'Bell (double-S): jm in {1,2,4,8,30} x am in {1/2,1,2,3,10} x vm in {1/2,1,2,3,5} x the same distances, directions, start positions and boundary velocities inside the limit, FILTERED by the textbook double-S feasibility condition (Biagiotti-Melchiorri 3.17-3.19) in the direction of travel; thorough adds non-dyadic and extreme limit values and distances 0.01..100. '
+             'Per plan: phase durations non-negative, ordered and summing to the total (bell: 2*taj <= ta, 2*tdj <= td); start at the initial position with the clamped initial velocity; left limit at the end time reaches the final position and the recorded final velocity; queries at -1, -T, 0, T, T+1, 10T hold the boundary state; left/right limits of position and velocity (and acceleration for the bell profile) agree at every phase boundary read from the context; '
+             'on a lattice of 33 (trapezoid) / 17 (bell) points per segment |vel| <= vm, bell |acc| <= am and |jer| <= jm, and vel/acc/jer equal central differences of pos/vel/acc. Tolerances are 100x the worst value observed on the unchanged tree (about 1200 eps of the motion scale for the iteratively solved no-cruise bell case). distinct_nontrivial = plans with positive duration.'),
+    'assumptions': ['requests outside the lattice and query times between lattice points are not covered; within a segment velocity is at most quadratic and acceleration monotone, so extremes lie on segment boundaries, which are lattice points',
+                    'the feasibility filter is the textbook condition; requests it rejects are not planned'],
+    'design_ref': '§4.C14', 'technique': 'bounded-exhaustive enumeration of feasible requests x time lattice per phase, with phase boundaries read from the generated plan',
+    'level_text': 'About 0.8 million requests per width in quick (2.5 million in thorough) covering every branch of both generators in both directions are planned by the real code and each plan with positive duration is checked for phase structure, boundary states, continuity at every phase boundary, kinematic limits and derivative consistency.',
+    'level_note': 'Trusted: central differences with stated truncation bounds. Not covered: limits/distances off the lattice, infeasible requests.',
+}
+
 # ---------------------------------------------------------------- manifest texts
 CHECKS['C01'].update({
     'design_ref': '§4.C01', 'technique': 'explicit-state BFS to a fixpoint over the real src/avl.c (size-bounded, unbounded history length), lock-step reference set, API-replay conformance of every state',
